@@ -1,13 +1,22 @@
 #!/bin/bash
 # harness/seedmatrix.sh [jobs] : run every kept seeded change (/verif/seeded/*/patch.diff) against the
 # quick check of its property (scratch worktrees, never /repo itself) and write /verif/seeded/MATRIX.md
+# With a second argument (a grep pattern on the directory names) only those changes are re-run and their
+# rows replace/extend the rows already in MATRIX.md.
 jobs=${1:-3}
+pat=${2:-.}
 cd /verif
 log=/tmp/seedmatrix_$$.log; : > $log
-ls -d seeded/C*/ | sed 's|/$||' | xargs -P $jobs -n 1 bash -c 'id=$(basename $0 | cut -d_ -f1); /verif/harness/seedtest.sh $id /verif/$0' >> $log 2>&1
-python3 - "$log" <<'PY'
+ls -d seeded/C*/ | sed 's|/$||' | grep -e "$pat" | xargs -P $jobs -n 1 bash -c 'id=$(basename $0 | cut -d_ -f1); /verif/harness/seedtest.sh $id /verif/$0' >> $log 2>&1
+python3 - "$log" "$pat" <<'PY'
 import re, sys, json, os
 rows = {}
+old = {}
+if sys.argv[2] != "." and os.path.exists("/verif/seeded/MATRIX.md"):
+    for ln in open("/verif/seeded/MATRIX.md"):
+        m = re.match(r"\| (C\S+) \| (C\d+) \| (\S+) \| (\d) \| (.*) \|$", ln.strip())
+        if m:
+            old[m.group(1)] = ln.strip()
 cur = None
 for ln in open(sys.argv[1]):
     m = re.match(r"SEEDTEST (C\d+) (\S+): demo_exit=(\S+) check_exit=(\d+) (\d+) violation-lines", ln)
@@ -19,7 +28,10 @@ for ln in open(sys.argv[1]):
 out = ["# Seeded changes vs checks (quick tier, scratch worktrees of /repo HEAD)", "",
        "| seeded change | property | demo fails with change | check exit | how reported |", "|---|---|---|---|---|"]
 caught = 0
-for k in sorted(rows):
+for k in sorted(set(rows) | set(old)):
+    if k not in rows:
+        out.append(old[k]); caught += "| not detected |" not in old[k]
+        continue
     r = rows[k]
     v = next((l for l in r["lines"] if l.startswith("VIOLATION")), "")
     how = "not detected" if r["check_exit"] == 0 else ("failing input (oracle)" if "no-failing-input-found" not in v else "broken correspondence/obligation, no failing input found")
@@ -29,7 +41,7 @@ for k in sorted(rows):
     if os.path.exists(mp):
         d = json.load(open(mp)); d["check_result"] = {"check_exit": r["check_exit"], "lines": r["lines"][:3]}
         json.dump(d, open(mp, "w"), indent=1)
-out += ["", "%d of %d seeded changes detected." % (caught, len(rows))]
+out += ["", "%d of %d seeded changes detected." % (caught, len(set(rows) | set(old)))]
 open("/verif/seeded/MATRIX.md", "w").write("\n".join(out) + "\n")
 print(out[-1])
 PY
